@@ -6,6 +6,7 @@ mod c13;
 mod c14;
 mod c16;
 mod driver;
+mod prelude;
 mod report;
 mod rng;
 
@@ -32,6 +33,7 @@ fn main() {
         "c11" => bisync::run("C11", &tier, seed, &driver, &work, &sy_bin, replay.as_deref()),
         "c12" => bisync::run("C12", &tier, seed, &driver, &work, &sy_bin, replay.as_deref()),
         "c13" => c13::run(&tier, seed, &driver, &work),
+        "prelude" => prelude::run(&tier, seed, &driver),
         "c14" => c14::run(&tier, seed, &driver, &work),
         "c16" => {
             // the real `sy` executable: built into the same target directory as this harness
